@@ -10,7 +10,7 @@ def spec(tier):
     # (level, wrapped-allocator config, size shift)
     cfgs = [(1, 0, 0), (1, 1, 0), (2, 0, 0), (0, 0, 0), (1, 0, 32)] if quick else [(1, 0, 0), (1, 1, 0), (2, 0, 0), (2, 1, 0), (0, 0, 0), (0, 1, 0), (1, 0, 32), (1, 0, 47), (2, 0, 32)]
     # '*' = operation chosen by the solver; in scripted programs slot and sizes (and whether realloc moves / goes to zero) stay symbolic
-    scripts = ["**", "AAR", "ARF", "ACF", "RRF", "CRR"] if quick else ["**", "AAR", "ARF", "ACF", "RRF", "CRR", "ARR", "AFR", "AAA", "CCF", "ARFA", "AARF", "RARF", "*A*", "A**"]
+    scripts = ["**", "AAR", "ARF", "ACF", "RRF", "CRR"] if quick else ["**", "AAR", "ARF", "ACF", "RRF", "CRR", "ARR", "AFR", "AAA", "CCF", "ARFA", "AARF", "RARF"]  # three free operations ("***", "A**") did not finish in 400 s on minisat / cadical / kissat / cvc5-int
     for level, wcfg, shift in cfgs:
         fpr = {
             "aws_mem_acquire.function_pointer_call.1": ["s_trace_mem_acquire", "w_acquire", "d_acquire"],
